@@ -60,6 +60,10 @@ def run(repo, rep):
     rule_avgpool_emulation_bias(repo, rep)
     rep.clause("C09-u", "per-tensor scales reach the derivations as numpy float32 scalars: the reader's len1_array_to_scalar returns an element of the file's array, never a converted (double) value")
     rule_reader_scalar_type(repo, rep)
+    rep.clause("C09-v", "fixup_bias_tensors only supplies a default bias type: an explicit request (int32 for emulated pooling) is never overwritten")
+    rep.clause("C09-w", "scale comparisons compare two different operands (no comparison helper or ==/!= with identical sides; expected count 0, matcher exercised)")
+    rep.clause("C09-x", "TOSA AVG_POOL2D reciprocal multiplier: numerator ((1 << 30) + 1) << k, shift 30 + k (folded for k = 0..6)")
+    rule_round11(repo, rep)
     rep.undecided("relative error bounds, equality with the TFLite derivation for all real scales")
     sc = repo.mod("scaling")
 
@@ -991,3 +995,74 @@ def rule_reader_scalar_type(repo, rep):
         rep.check(ok, "C09-u", site, f"`{str(norm(r))}` hands on the file's own element type",
                   f"`{str(norm(v))}` converts the element: a Python float is a double, `np.double(ifm_scale * weight_scale)` then loses the float32 rounding of the product that the reference "
                   "performs (Q31 multiplier off in its low bits for FULLY_CONNECTED / uint8 convolutions read from a file)")
+
+
+def rule_round11(repo, rep):
+    """(v) fixup_bias_tensors honours an explicitly requested bias type: `dtype` is assigned only under `dtype is None` (the lowerings that
+    emulate pooling pass DataType.int32 to get full-precision scaling for int16).
+    (w) a scale comparison compares two different tensors: no call of a comparison helper (check_quantized_tens_scaling_equal,
+    is_scaling_equal, equivalent ..) and no ==/!= has the same expression on both sides (expected count 0; the matcher is exercised on a
+    synthetic positive example on every run).
+    (x) TOSA AVG_POOL2D reciprocal: numerator ((1 << 30) + 1) << k, shift 30 + k (folded for k = 0..6): the + 1 is scaled with the power of
+    two, which makes the quotient round half up for every window size."""
+    go = repo.mod("tflite_graph_optimiser")
+    fn = go.func("fixup_bias_tensors")
+    site = "ethosu/vela/tflite_graph_optimiser.py:fixup_bias_tensors"
+    asg = [st for st in ast.walk(fn) if isinstance(st, ast.Assign) and str(norm(st.targets[0])) == "dtype"]
+    if not asg:
+        raise AnalysisError("fixup_bias_tensors: no default for dtype")
+    for st in asg:
+        cur, ok = st, False
+        while cur is not fn and cur is not None:
+            pp = go.parents.get(cur)
+            if isinstance(pp, ast.If) and cur in pp.body and str(norm(pp.test)) == "dtype is None":
+                ok = True
+            cur = pp
+        rep.check(ok, "C09-v", site, f"`{str(norm(st))[:70]}` only supplies a default (under `dtype is None`)",
+                  "an explicitly requested bias type is overwritten: the int32 bias that the pooling / resize lowerings ask for becomes int64 for an int16 IFM and the divisor is packed with the reduced 15-bit multiplier")
+    # (w) vacuous comparisons
+    HELPERS = ("check_quantized_tens_scaling_equal", "is_scaling_equal", "equivalent", "is_quantization_equal", "equal_scales")
+
+    def vacuous(tree):
+        out = []
+        for c in ast.walk(tree):
+            if isinstance(c, ast.Call) and (call_name(c) or "").split(".")[-1] in HELPERS:
+                args = [str(norm(a)) for a in c.args]
+                if isinstance(c.func, ast.Attribute) and len(args) == 1:
+                    args = [str(norm(c.func.value))] + args
+                if len(args) == 2 and args[0] == args[1]:
+                    out.append(c)
+            if isinstance(c, ast.Compare) and len(c.ops) == 1 and isinstance(c.ops[0], (ast.Eq, ast.NotEq)) and str(norm(c.left)) == str(norm(c.comparators[0])) and not isinstance(c.left, ast.Constant):
+                out.append(c)
+        return out
+
+    if len(vacuous(ast.parse("if check_quantized_tens_scaling_equal(ifm, ifm) and a.b == a.b:\n    pass\n"))) != 2:
+        raise AnalysisError("vacuous comparison matcher does not match its positive example")
+    n_calls = 0
+    for m in repo.core_modules():
+        for q, f in m.functions.items():
+            n_calls += sum(1 for c in ast.walk(f) if isinstance(c, ast.Call) and (call_name(c) or "").split(".")[-1] in HELPERS)
+            for c in vacuous(f):
+                rep.bad("C09-w", f"{m.rel}:{q}", "a comparison compares two different operands", f"`{str(norm(c))[:80]}` has the same expression on both sides (always true / false): the scales it was to compare are never compared "
+                        "(int16 LEAKY_RELU with different input and output scales kept native: OFM_SCALE denotes alpha instead of alpha * ifm / ofm)")
+    rep.check(n_calls >= 10, "C09-w", "ethosu/vela", f"{n_calls} calls of scale / equivalence comparison helpers examined", "fewer than 10 calls found")
+    # (x)
+    tm = repo.mod("tosa_graph_optimiser")
+    tf = tm.func("calc_scaling_avgpool")
+    tsite = "ethosu/vela/tosa_graph_optimiser.py:calc_scaling_avgpool"
+    num = [st for st in ast.walk(tf) if isinstance(st, ast.Assign) and str(norm(st.targets[0])) == "numerator"]
+    shf = [c for c in ast.walk(tf) if isinstance(c, ast.Call) and str(norm(c.func)) == "shift.append"]
+    if len(num) != 1 or len(shf) != 1:
+        raise AnalysisError("calc_scaling_avgpool: numerator / shift not found")
+    e = num[0].value
+    if isinstance(e, ast.Call) and len(e.args) == 1:
+        e = e.args[0]
+    wrong = None
+    for k in range(0, 7):
+        got, gs = eval_with(e, {"k": k}), eval_with(shf[0].args[0], {"k": k})
+        if got is None or gs is None:
+            raise AnalysisError("calc_scaling_avgpool: numerator / shift not foldable")
+        if (got != ((1 << 30) + 1) << k or gs != 30 + k) and wrong is None:
+            wrong = (k, got, gs)
+    rep.check(wrong is None, "C09-x", tsite, "numerator = ((1 << 30) + 1) << k with shift 30 + k for k = 0..6",
+              f"k = {wrong[0]}: numerator {wrong[1]}, shift {wrong[2]}: the rounding term is not scaled with 2^k - a window sum exactly half-way (3 over a 2x3 window) is rounded down" if wrong else "")
